@@ -45,22 +45,34 @@ C03Cases == {[installed |-> i, class |-> c] : i \in BOOLEAN, c \in {"unknown-as-
                                                                       "peeras", "aspath-regex", "attr-match"}}
 C15Cases == {q \in UNION {[1..k -> EvalClass \ {"malformed-annotation"}] : k \in 2..3} :
                (\E i \in 1..Len(q) : q[i] # "ok") /\ (\E i \in 1..Len(q) : q[i] = "ok")}
+            (* ... and sets none of whose members can be evaluated: the run has other work (an orphan to delete) and *)
+            (* does not abort                                                                                        *)
+            \cup UNION {[1..k -> EvalClass \ {"malformed-annotation", "ok"}] : k \in 1..2}
 
 (* C16: shape of a policy-statement of the running configuration *)
 Active == {"absent", "true", "false"}
 Comment == {"none", "other", "fltr", "fltr-nospace", "fltr-bare", "fltr-bad", "fltr-empty", "prefix-only-similar",
-            "fltr-doublestar", "fltr-slashes", "fltr-unterminated"}       \* other decorations of the same annotation
+            "fltr-doublestar", "fltr-slashes", "fltr-unterminated",       \* other decorations of the same annotation
+            (* an expression that goes on on the next line of the comment (a line that begins with a blank, a tab   *)
+            (* or "+" continues the expression): broken before an operator, after one, and with "+"                  *)
+            "fltr-wrapped", "fltr-wrapped-after-op", "fltr-wrapped-plus"}
 Body == {"reject", "terms+reject", "accept", "empty",
          (* other content that is deactivated is other content all the same *)
          "reject+inactive-term", "inactive-term+reject"}
 AttrOrder == {"comment-first", "active-first"}
 Shapes == {[active |-> a, comment |-> c, body |-> b, order |-> o, dupxmlns |-> d, extra |-> x] :
              a \in Active, c \in Comment, b \in Body, o \in AttrOrder, d \in BOOLEAN, x \in BOOLEAN}
-ParseableComment(c) == c \in {"fltr", "fltr-nospace", "fltr-bare", "fltr-doublestar", "fltr-slashes", "fltr-unterminated"}
+ParseableComment(c) == c \in {"fltr", "fltr-nospace", "fltr-bare", "fltr-doublestar", "fltr-slashes", "fltr-unterminated",
+                              "fltr-wrapped", "fltr-wrapped-after-op", "fltr-wrapped-plus"}
 MarkedComment(c) == ParseableComment(c) \/ c \in {"fltr-bad", "fltr-empty"}
 Managed(sh) == sh.active # "false" /\ ParseableComment(sh.comment) /\ sh.body = "reject"
 Marked(sh) == sh.active # "false" /\ MarkedComment(sh.comment)
 ShapeCases == {[shape |-> sh, sel |-> Managed(sh), marked |-> Marked(sh)] : sh \in Shapes}
+
+(* C16 over histories: what one statement (one name) looks like in consecutive running configurations read by   *)
+(* ONE agent process.  Selection is a function of the configuration that is read, not of the ones read before. *)
+SClass == {"valid1", "valid2", "malformed", "inactive", "otherbody", "gone", "plain"}
+ShapeHistories == [1..(3 + Depth) -> SClass]
 
 RECURSIVE SetToSeq(_)
 SetToSeq(S) == IF S = {} THEN <<>> ELSE LET x == CHOOSE y \in S : TRUE IN <<x>> \o SetToSeq(S \ {x})
@@ -69,8 +81,10 @@ StatusJ(st) == [marked |-> st.marked, v4 |-> SetToSeq(st.v4), v6 |-> SetToSeq(st
 (* C13 for configuration data: the router's replies in every composition of information-preserving
    rewrites (Depth = 0: each single rewrite, none and all of them; Depth = 1: every subset) *)
 StyleFlags == {"pfx", "ws", "pad", "cmt", "attr", "decl", "empt"}
-StyleCases == IF Depth = 0 THEN {{}} \cup {{f} : f \in StyleFlags} \cup {StyleFlags} \cup {StyleFlags \ {f} : f \in {"pfx", "empt"}}
-              ELSE SUBSET StyleFlags
+StyleCases == (IF Depth = 0 THEN {{}} \cup {{f} : f \in StyleFlags} \cup {StyleFlags} \cup {StyleFlags \ {f} : f \in {"pfx", "empt"}}
+               ELSE SUBSET StyleFlags)
+              (* a comment in the middle of token-valued text (names, prefixes, ranges), on its own *)
+              \cup {{"cmtmid"}}
 
 (* C14 for the agent: every positive reply of the router damaged in every way of the mutation grammar *)
 Mutations == {"trunc-half", "trunc-tag", "trunc-attr", "dup-statement", "dup-name", "dup-root", "huge-int", "range-reversed",
@@ -81,7 +95,11 @@ GarbleTargets == {"open", "get-running", "get-candidate", "load", "commit", "clo
 (* systematic: the reply cut after its N-th tag, and with its N-th element removed *)
 PositionCases == {[target |-> t, index |-> 0, kind |-> "mut:trunc@" \o ToString(i)] : t \in {"get-running", "get-candidate"}, i \in 0..(IF Depth = 0 THEN 69 ELSE 139)}
                  \cup {[target |-> t, index |-> 0, kind |-> "mut:del@" \o ToString(i)] : t \in {"get-running", "get-candidate"}, i \in 0..(IF Depth = 0 THEN 34 ELSE 69)}
-GarbleCases == PositionCases \cup {[target |-> t, index |-> IF t = "load" THEN i ELSE 0, kind |-> "mut:" \o m] :
+(* "absurd numbers": the N-th number of the reply (in attribute values and in text alike) replaced by 2^63, 2^64-1, *)
+(* forty digits, a negative one                                                                                  *)
+NumberCases == {[target |-> t, index |-> 0, kind |-> "mut:num" \o v \o "@" \o ToString(i)] :
+                  t \in {"get-running", "get-candidate"}, v \in {"63", "64", "40", "neg"}, i \in 0..(IF Depth = 0 THEN 24 ELSE 99)}
+GarbleCases == PositionCases \cup NumberCases \cup {[target |-> t, index |-> IF t = "load" THEN i ELSE 0, kind |-> "mut:" \o m] :
                    t \in (IF Depth = 0 THEN {"get-running", "get-candidate", "load"} ELSE GarbleTargets), m \in Mutations, i \in 1..2}
 
 (* C02 "for all installed states": states in the ephemeral instance that the agent did not write itself *)
@@ -97,6 +115,7 @@ Out ==
     [] Family = "c03"   -> ToJson([cases |-> C03Cases])
     [] Family = "c15"   -> ToJson([cases |-> C15Cases])
     [] Family = "shape" -> ToJson([cases |-> ShapeCases])
+    [] Family = "shapehist" -> ToJson([cases |-> ShapeHistories])
     [] Family = "garble" -> ToJson([cases |-> GarbleCases])
     [] Family = "foreign" -> ToJson([cases |-> ForeignCases])
     [] Family = "style" -> ToJson([cases |-> StyleCases])
